@@ -251,13 +251,14 @@ class Shifted(Objective):
 
     def __init__(self, base: Objective, scale: float, lam: float, c):
         super().__init__(base.n)
-        self.base, self.scale, self.lam = base, float(scale), float(lam)
+        self.base, self.scale = base, float(scale)
+        self.lam = np.asarray(lam, dtype=float)  # scalar or per-coordinate weights
         self.c = np.asarray(c, dtype=float)
         self.name = f"shifted({base.name})"
 
     def f(self, x):
         x = np.asarray(x, dtype=float)
-        return float(self.base.f(x) * self.scale + 0.5 * self.lam * ((x - self.c) @ (x - self.c)))
+        return float(self.base.f(x) * self.scale + 0.5 * np.sum(self.lam * (x - self.c) ** 2))
 
     def g(self, x):
         x = np.asarray(x, dtype=float)
